@@ -67,6 +67,9 @@ struct VCase {
     tol_bits: Option<u64>,
     unit: Option<String>,
     query: Value,
+    /// further queries processed, in order, by the SAME plugin instance after `query`
+    #[serde(default)]
+    seq: Vec<Value>,
 }
 #[derive(Serialize, Deserialize, Clone, Debug)]
 struct ECase {
@@ -78,6 +81,9 @@ struct ECase {
     tol_bits: Option<u64>,
     unit: Option<String>,
     query: Value,
+    /// further queries processed, in order, by the SAME plugin instance after `query`
+    #[serde(default)]
+    seq: Vec<Value>,
 }
 
 fn dec(v16: i64) -> String {
@@ -308,35 +314,42 @@ fn run_vertex_case(st: &mut Stream, dir: &Path, c: &VCase) {
 
     let cands: Vec<(u64, P)> = c.vertices.iter().map(|(i, x, y)| (*i, (*x, *y))).collect();
     let tol = tolerance_of(&c.tol_bits, &c.unit);
-    let an = analyse(&c.query, &cands, &tol);
-    let (state, head) = run_plugin(plugin, &c.query);
-    let masked = mask(an.bydist, &cands, &c.query, "origin_vertex", "destination_vertex", &state);
-    let line = format!("I {} {}", id, payload(&head, &masked));
-
+    let queries: Vec<&Value> = std::iter::once(&c.query).chain(c.seq.iter()).collect();
+    let mut parts = vec![];
+    let mut steps = vec![];
+    let mut heads = vec![];
+    for q in &queries {
+        let an = analyse(q, &cands, &tol);
+        let (state, head) = run_plugin(plugin.clone(), q);
+        let masked = mask(an.bydist, &cands, q, "origin_vertex", "destination_vertex", &state);
+        parts.push(payload(&head, &masked));
+        steps.push(format!("(({}, {}), {})", coq_gct(&an.gct), coq_bool(an.bydist), coq_json(q)));
+        st.count(&format!("outcome:{}", head.split(':').next().unwrap()));
+        for v in &an.verdicts {
+            st.count(&format!("verdict:{}", v));
+        }
+        if an.bydist {
+            st.count("compared_by_distance(tie)");
+        }
+        if dest_of_for_mask(q).is_some() {
+            st.count("with_destination");
+        }
+        heads.push(head);
+    }
+    let line = format!("I {} {}", id, parts.join(" | "));
     let args = format!(
-        "{} {} {} {} {}",
+        "{} {} [{}]",
         coq_list(&c.vertices, |(i, x, y)| format!("C {} {} {}", i, coq_q16(*x), coq_q16(*y))),
         coq_tol(&c.tol_bits, &c.unit),
-        coq_gct(&an.gct),
-        coq_bool(an.bydist),
-        coq_json(&c.query)
+        steps.join("; ")
     );
-    let terms = vec![format!("line_vm {} {}", id, args), format!("line_vs {} {}", id, args)];
+    let terms = vec![format!("line_vm_seq {} {}", id, args), format!("line_vs_seq {} {}", id, args)];
 
     st.count(&format!("family:{}", c.family));
     st.count(&format!("candidates:{}", bucket(c.vertices.len())));
-    st.count(&format!("outcome:{}", head.split(':').next().unwrap()));
+    st.count(&format!("queries_on_one_instance:{}", queries.len()));
     st.count(&format!("tolerance:{}", tol_label(&c.tol_bits, &c.unit)));
-    for v in &an.verdicts {
-        st.count(&format!("verdict:{}", v));
-    }
-    if an.bydist {
-        st.count("compared_by_distance(tie)");
-    }
-    if dest_of_for_mask(&c.query).is_some() {
-        st.count("with_destination");
-    }
-    let nontrivial = (head == "Ok" && c.vertices.len() >= 2) || (head.starts_with("Err InputPluginFailed") && !c.vertices.is_empty());
+    let nontrivial = heads.iter().any(|head| (head == "Ok" && c.vertices.len() >= 2) || (head.starts_with("Err InputPluginFailed") && !c.vertices.is_empty()));
     let mut desc = serde_json::to_value(c).unwrap();
     desc["id"] = json!(id);
     if nontrivial {
@@ -402,6 +415,7 @@ fn vcase(family: &str, vertices: Vec<(u64, i64, i64)>, tol: Option<(u64, Option<
         tol_bits: tol.map(|t| t.0),
         unit: tol.and_then(|t| t.1.map(String::from)),
         query,
+        seq: vec![],
     }
 }
 
@@ -507,6 +521,15 @@ fn vertex_boundary_cases() -> Vec<VCase> {
         json!({"origin_vertex": 99, "a": 1, "origin_x": -105.0625, "destination_vertex": "x", "origin_y": 39.5625,
                "destination_y": 39.5, "origin_edge": 4, "destination_x": -104.5625, "destination_edge": null, "z": {"origin_vertex": 1}}),
     ));
+    // SEQUENCES on one plugin instance: every query is answered on its own
+    {
+        let mut c = vcase("sequence_destinations", net.clone(), None, query_of(Some(o), Some(dd), &[]));
+        c.seq = vec![query_of(Some(o), None, &[]), query_of(Some(dd), Some(o), &[]), query_of(Some(o), Some(dd), &[("n", json!(1))]), query_of(Some((-1684, 639)), None, &[])];
+        out.push(c);
+        let mut c = vcase("sequence_errors", net.clone(), Some((tol_for(d_o, "meters", 2.0), Some("meters"))), query_of(Some((-1600, 600)), None, &[]));
+        c.seq = vec![query_of(Some(o), None, &[]), json!({"origin_x": "a", "origin_y": 1}), query_of(Some(o), Some((-1600, 600)), &[]), query_of(Some(o), None, &[]), query_of(Some((-1600, 600)), Some(o), &[])];
+        out.push(c);
+    }
     // many candidates, the nearest first / in the middle / last in file order
     for n in [40usize, 130] {
         for pos in [0usize, n / 2, n - 1] {
@@ -597,7 +620,21 @@ fn random_vertex_case(r: &mut Rng) -> VCase {
     let d = if r.chance(3, 5) { Some(random_coord(r, &pts, centre, spread16)) } else { None };
     let extras = random_extras(r);
     let query = query_of(Some(o), d, &extras);
-    let mut c = VCase { family: if polar { "random_high_latitude".into() } else { "random".into() }, vertices, tol_bits: None, unit: None, query };
+    let mut c = VCase { family: if polar { "random_high_latitude".into() } else { "random".into() }, vertices, tol_bits: None, unit: None, query, seq: vec![] };
+    if r.chance(1, 3) {
+        // 1..5 more queries on the same plugin instance: the same coordinate again (with / without destination,
+        // other foreign fields), interleaved with other coordinates
+        for _ in 0..r.range(1, 5) {
+            let o2 = if r.chance(2, 3) { o } else { random_coord(r, &pts, centre, spread16) };
+            let d2 = match r.below(3) {
+                0 => None,
+                1 => d.or(Some(o)),
+                _ => Some(random_coord(r, &pts, centre, spread16)),
+            };
+            c.seq.push(query_of(Some(o2), d2, &random_extras(r)));
+        }
+        c.family = format!("{}_sequence", c.family);
+    }
     if r.chance(3, 5) {
         let target = if d.is_some() && r.chance(1, 2) { d.unwrap() } else { o };
         if let Some((b, u)) = random_tolerance(r, target, &cands) {
@@ -605,8 +642,12 @@ fn random_vertex_case(r: &mut Rng) -> VCase {
             c.unit = u;
         }
         // keep only cases whose verdict does not depend on the R-tree's tie-break or the open boundary
-        let an = analyse(&c.query, &cands, &tolerance_of(&c.tol_bits, &c.unit));
-        if !an.consistent || an.verdicts.iter().any(|v| v == "band") {
+        let tol = tolerance_of(&c.tol_bits, &c.unit);
+        let bad = std::iter::once(&c.query).chain(c.seq.iter()).any(|q| {
+            let an = analyse(q, &cands, &tol);
+            !an.consistent || an.verdicts.iter().any(|v| v == "band")
+        });
+        if bad {
             c.tol_bits = None;
             c.unit = None;
         }
@@ -754,78 +795,90 @@ fn run_edge_case(st: &mut Stream, dir: &Path, c: &ECase) {
     for p in [&gp, &cp, &rp] {
         let _ = std::fs::remove_file(p);
     }
-    let vparams = VehicleParameters::from_query(&c.query).ok();
-    let truck: Vec<bool> = (0..c.edges.len())
-        .map(|i| match (&restr, &vparams) {
-            (Some(rs), Some(vp)) => rs.get(&EdgeId(i)).map(|l| l.iter().all(|x| x.valid(vp))).unwrap_or(true),
-            _ => true,
-        })
-        .collect();
-    // road-class verdict on the harness side (only to know the admissible set for ties / oracle table;
-    // the model computes its own from the query)
-    let rcq: Option<Option<Vec<u8>>> = harness_read_query(&c.mapping, &c.query);
     let all: Vec<(u64, P)> = c.edges.iter().enumerate().map(|(i, l)| (i as u64, centroid16(l))).collect();
-    let adm: Vec<(u64, P)> = all
-        .iter()
-        .filter(|(i, _)| {
-            let i = *i as usize;
-            let vc = match (&rcq, &c.classes) {
-                (Some(Some(s)), Some(cl)) => s.contains(&cl[i]),
-                _ => true,
-            };
-            vc && truck[i]
-        })
-        .cloned()
-        .collect();
     let tol = tolerance_of(&c.tol_bits, &c.unit);
-    let an = analyse(&c.query, &adm, &tol);
-    let (state, head) = run_plugin(plugin, &c.query);
-    let masked = mask(an.bydist, &all, &c.query, "origin_edge", "destination_edge", &state);
-    let line = format!("I {} {}", id, payload(&head, &masked));
-
-    let falses: Vec<usize> = truck.iter().enumerate().filter(|(_, b)| !**b).map(|(i, _)| i).collect();
+    let queries: Vec<&Value> = std::iter::once(&c.query).chain(c.seq.iter()).collect();
+    let mut parts = vec![];
+    let mut steps = vec![];
+    let mut heads = vec![];
+    for q in &queries {
+        let vparams = VehicleParameters::from_query(q).ok();
+        let truck: Vec<bool> = (0..c.edges.len())
+            .map(|i| match (&restr, &vparams) {
+                (Some(rs), Some(vp)) => rs.get(&EdgeId(i)).map(|l| l.iter().all(|x| x.valid(vp))).unwrap_or(true),
+                _ => true,
+            })
+            .collect();
+        // road-class verdict on the harness side (only to know the admissible set for ties / oracle table;
+        // the model computes its own from the query)
+        let rcq: Option<Option<Vec<u8>>> = harness_read_query(&c.mapping, q);
+        let adm: Vec<(u64, P)> = all
+            .iter()
+            .filter(|(i, _)| {
+                let i = *i as usize;
+                let vc = match (&rcq, &c.classes) {
+                    (Some(Some(s)), Some(cl)) => s.contains(&cl[i]),
+                    _ => true,
+                };
+                vc && truck[i]
+            })
+            .cloned()
+            .collect();
+        let an = analyse(q, &adm, &tol);
+        let (state, head) = run_plugin(plugin.clone(), q);
+        let masked = mask(an.bydist, &all, q, "origin_edge", "destination_edge", &state);
+        parts.push(payload(&head, &masked));
+        let falses: Vec<usize> = truck.iter().enumerate().filter(|(_, b)| !**b).map(|(i, _)| i).collect();
+        steps.push(format!(
+            "((({}, {}), {}), {})",
+            coq_gct(&an.gct),
+            coq_list(&falses, |i| format!("({}, false)", coq_z(*i as i128))),
+            coq_bool(an.bydist),
+            coq_json(q)
+        ));
+        // how many nearer inadmissible edges the origin search has to skip
+        let skipped = origin_of(q)
+            .map(|p| {
+                let best = adm.iter().map(|(_, c)| d2_16(*c, p)).min();
+                all.iter().filter(|(i, c)| !adm.iter().any(|(j, _)| j == i) && best.map(|b| d2_16(*c, p) <= b).unwrap_or(true)).count()
+            })
+            .unwrap_or(0);
+        st.count(&format!("outcome:{}", head.split(':').next().unwrap()));
+        st.count(&format!("skipped_inadmissible_nearer:{}", skipped.min(4)));
+        st.count(&format!("filters:{}{}", if c.classes.is_some() && q.get("road_classes").is_some() { "class" } else { "" }, if restr.is_some() && vparams.is_some() { "+vehicle" } else { "" }));
+        for v in &an.verdicts {
+            st.count(&format!("verdict:{}", v));
+        }
+        if an.bydist {
+            st.count("compared_by_distance(tie)");
+        }
+        if dest_of_for_mask(q).is_some() {
+            st.count("with_destination");
+        }
+        heads.push(head);
+    }
+    let line = format!("I {} {}", id, parts.join(" | "));
     let args = format!(
-        "{} {} {} {} {} {} {} {}",
+        "{} {} {} {} [{}]",
         coq_list(&all, |(i, p)| format!("C {} {} {}", i, coq_q16(p.0), coq_q16(p.1))),
         coq_tol(&c.tol_bits, &c.unit),
-        coq_gct(&an.gct),
         coq_list(&c.mapping, |(k, v)| format!("({}, {})", coq_string(k), coq_z(*v as i128))),
         coq_opt(&c.classes, |cl| coq_list(cl, |k| coq_z(*k as i128))),
-        coq_list(&falses, |i| format!("({}, false)", coq_z(*i as i128))),
-        coq_bool(an.bydist),
-        coq_json(&c.query)
+        steps.join("; ")
     );
-    let terms = vec![format!("line_em {} {}", id, args), format!("line_es {} {}", id, args)];
+    let terms = vec![format!("line_em_seq {} {}", id, args), format!("line_es_seq {} {}", id, args)];
 
-    // how many nearer inadmissible edges the origin search has to skip
-    let skipped = origin_of(&c.query)
-        .map(|p| {
-            let best = adm.iter().map(|(_, c)| d2_16(*c, p)).min();
-            all.iter().filter(|(i, c)| !adm.iter().any(|(j, _)| j == i) && best.map(|b| d2_16(*c, p) <= b).unwrap_or(true)).count()
-        })
-        .unwrap_or(0);
     st.count(&format!("family:{}", c.family));
     st.count(&format!("candidates:{}", bucket(c.edges.len())));
-    st.count(&format!("outcome:{}", head.split(':').next().unwrap()));
+    st.count(&format!("queries_on_one_instance:{}", queries.len()));
     st.count(&format!("tolerance:{}", tol_label(&c.tol_bits, &c.unit)));
-    st.count(&format!("skipped_inadmissible_nearer:{}", skipped.min(4)));
     // edges whose reference point lies outside the box of their two end points (hairpins, rings, loops)
     let outside = c.edges.iter().filter(|l| {
         let (a, b, m) = (l[0], l[l.len() - 1], centroid16(l));
         m.0 < a.0.min(b.0) || m.0 > a.0.max(b.0) || m.1 < a.1.min(b.1) || m.1 > a.1.max(b.1)
     }).count();
     st.count(&format!("edges_with_centroid_outside_endpoint_box:{}", match outside { 0 => "0", 1 => "1", 2..=5 => "2-5", _ => "6+" }));
-    st.count(&format!("filters:{}{}", if c.classes.is_some() && c.query.get("road_classes").is_some() { "class" } else { "" }, if restr.is_some() && vparams.is_some() { "+vehicle" } else { "" }));
-    for v in &an.verdicts {
-        st.count(&format!("verdict:{}", v));
-    }
-    if an.bydist {
-        st.count("compared_by_distance(tie)");
-    }
-    if dest_of_for_mask(&c.query).is_some() {
-        st.count("with_destination");
-    }
-    let nontrivial = (head == "Ok" && c.edges.len() >= 2) || (head.starts_with("Err InputPluginFailed") && !c.edges.is_empty());
+    let nontrivial = heads.iter().any(|head| (head == "Ok" && c.edges.len() >= 2) || (head.starts_with("Err InputPluginFailed") && !c.edges.is_empty()));
     let mut desc = serde_json::to_value(c).unwrap();
     desc["id"] = json!(id);
     if nontrivial {
@@ -864,6 +917,7 @@ fn ecase(family: &str, edges: Vec<Vec<P>>, classes: Option<Vec<u8>>, restriction
         tol_bits: tol.map(|t| t.0),
         unit: tol.and_then(|t| t.1.map(String::from)),
         query,
+        seq: vec![],
     }
 }
 
@@ -1013,6 +1067,34 @@ fn edge_boundary_cases() -> Vec<ECase> {
             out.push(ecase("curved_edges_tolerance", es.clone(), None, None, Some((tol_for(d1, "feet", 0.5), Some("feet"))), query_of(Some((c0.0 + 1, c0.1 + 1)), None, &[])));
         }
     }
+    // SEQUENCES on one plugin instance: the plugin must answer every query on its own
+    {
+        let veh = |h: f64, w: f64| with(q0.clone(), "vehicle_parameters", vehicle(h, w));
+        // the bit-identical coordinate, same (absent) road classes, different vehicles
+        let mut c = ecase("sequence_vehicles", line.clone(), None, Some(restr.clone()), None, veh(2.0, 5000.0));
+        c.seq = vec![veh(4.2, 5000.0), veh(2.0, 5000.0), veh(3.2, 5000.0), q0.clone(), veh(5.0, 20000.0)];
+        out.push(c);
+        let mut c = ecase("sequence_vehicles", line.clone(), Some(classes.clone()), Some(restr.clone()), None, with(veh(2.0, 5000.0), "road_classes", json!([1, 2, 3, 4, 5])));
+        c.seq = vec![with(veh(4.2, 5000.0), "road_classes", json!([5, 4, 3, 2, 1])), with(veh(4.2, 20000.0), "road_classes", json!([1, 2, 3, 4, 5]))];
+        out.push(c);
+        let mut c = ecase("sequence_vehicles_tolerance", line.clone(), None, Some(restr.clone()), Some((tol_for(d_adm, "meters", 1.5), Some("meters"))), veh(2.0, 5000.0));
+        c.seq = vec![veh(4.2, 5000.0), veh(5.0, 5000.0), veh(2.0, 5000.0)];
+        out.push(c);
+        // same coordinate, different road classes
+        let rc = |v: Value| with(q0.clone(), "road_classes", v);
+        let mut c = ecase("sequence_classes", line.clone(), Some(classes.clone()), None, None, rc(json!([1, 2, 3, 4, 5])));
+        c.seq = vec![rc(json!([3, 4, 5])), rc(json!([1, 2, 3, 4, 5])), q0.clone(), rc(json!([5])), rc(json!([]))];
+        out.push(c);
+        // with and without destination, coordinates swapped, interleaved with another coordinate
+        let far = (-1665, 630);
+        let mut c = ecase("sequence_destinations", line.clone(), None, None, None, query_of(Some(o), Some(far), &[]));
+        c.seq = vec![query_of(Some(o), None, &[]), query_of(Some(far), Some(o), &[]), query_of(Some((-1673, 633)), None, &[]), query_of(Some(o), Some(far), &[("n", json!(1))])];
+        out.push(c);
+        // failures do not poison later queries (and the reverse)
+        let mut c = ecase("sequence_errors", line.clone(), None, None, Some((tol_for(d_near, "meters", 2.0), Some("meters"))), query_of(Some((-1500, 600)), None, &[]));
+        c.seq = vec![q0.clone(), json!({"origin_y": 1}), q0.clone(), query_of(Some(o), Some((-1500, 600)), &[]), query_of(Some(o), Some((-1677, 633)), &[])];
+        out.push(c);
+    }
     // coordinate outside the haversine range
     out.push(ecase("out_of_range", line.clone(), None, None, None, query_of(Some((-1680, 1500)), None, &[])));
     out.push(ecase("out_of_range", line.clone(), None, None, Some((1e12f64.to_bits(), Some("meters"))), query_of(Some((-1680, 1500)), None, &[])));
@@ -1069,18 +1151,52 @@ fn random_edge_case(r: &mut Rng) -> ECase {
             query = with(query, "vehicle_parameters", vehicle(4.0, 15000.0));
         }
     }
-    let mut c = ECase { family: if polar { "random_high_latitude".into() } else { "random".into() }, edges, classes, restrictions, mapping, tol_bits: None, unit: None, query };
+    let mut c = ECase { family: if polar { "random_high_latitude".into() } else { "random".into() }, edges, classes, restrictions, mapping, tol_bits: None, unit: None, query, seq: vec![] };
+    if r.chance(2, 5) {
+        // 1..5 more queries on the same plugin instance: the bit-identical coordinate again with other vehicle
+        // parameters / road classes / with and without destination, interleaved with other coordinates
+        let names = !c.mapping.is_empty();
+        for _ in 0..r.range(1, 5) {
+            let o2 = if r.chance(3, 4) { o } else { random_coord(r, &pts, centre, spread16) };
+            let d2 = match r.below(3) {
+                0 => None,
+                1 => d.or(Some(o)),
+                _ => Some(random_coord(r, &pts, centre, spread16)),
+            };
+            let mut q = query_of(Some(o2), d2, &random_extras(r));
+            match r.below(5) {
+                0 => {}
+                1 => q = with(q, "vehicle_parameters", vehicle(2.0, 3000.0)),
+                2 => q = with(q, "vehicle_parameters", vehicle(4.0, 15000.0)),
+                3 => q = with(q, "vehicle_parameters", vehicle(5.0, 30000.0)),
+                _ => q = with(q, "vehicle_parameters", json!({"height": [4.0, "meters"]})),
+            }
+            match r.below(5) {
+                0 => {}
+                1 => q = with(q, "road_classes", if names { json!(["a", "b", "c", "d"]) } else { json!([1, 2, 3, 4]) }),
+                2 => q = with(q, "road_classes", if names { json!(["a", "b", "c", "d"]) } else { json!([4, 3, 2, 1, 9]) }),
+                3 => q = with(q, "road_classes", if names { json!(["b", "d"]) } else { json!([2, 4]) }),
+                _ => q = with(q, "road_classes", json!([9])),
+            }
+            c.seq.push(q);
+        }
+        c.family = format!("{}_sequence", c.family);
+    }
     if r.chance(3, 5) {
         // tolerance around the distance of the nearest admissible edge: needs the admissible set, which needs
         // the real functions -> compute it the way run_edge_case does, on a throw-away basis
-        let adm = admissible_set(&c);
+        let adm = admissible_set(&c, &c.query);
         let target = if d.is_some() && r.chance(1, 2) { d.unwrap() } else { o };
         if let Some((b, u)) = random_tolerance(r, target, &adm) {
             c.tol_bits = Some(b);
             c.unit = u;
         }
-        let an = analyse(&c.query, &adm, &tolerance_of(&c.tol_bits, &c.unit));
-        if !an.consistent || an.verdicts.iter().any(|v| v == "band") {
+        let tol = tolerance_of(&c.tol_bits, &c.unit);
+        let bad = std::iter::once(&c.query).chain(c.seq.iter()).any(|q| {
+            let an = analyse(q, &admissible_set(&c, q), &tol);
+            !an.consistent || an.verdicts.iter().any(|v| v == "band")
+        });
+        if bad {
             c.tol_bits = None;
             c.unit = None;
         }
@@ -1088,7 +1204,7 @@ fn random_edge_case(r: &mut Rng) -> ECase {
     c
 }
 /// admissible candidates of a case (real vehicle functions, real road class parser)
-fn admissible_set(c: &ECase) -> Vec<(u64, P)> {
+fn admissible_set(c: &ECase, q: &Value) -> Vec<(u64, P)> {
     let dir = std::env::temp_dir().join(format!("c16_adm_{}", std::process::id()));
     std::fs::create_dir_all(&dir).unwrap();
     let rp = dir.join("r.csv");
@@ -1103,8 +1219,8 @@ fn admissible_set(c: &ECase) -> Vec<(u64, P)> {
         l
     });
     let _ = std::fs::remove_dir(&dir);
-    let vparams = VehicleParameters::from_query(&c.query).ok();
-    let rcq = harness_read_query(&c.mapping, &c.query);
+    let vparams = VehicleParameters::from_query(q).ok();
+    let rcq = harness_read_query(&c.mapping, q);
     c.edges
         .iter()
         .enumerate()
